@@ -2,9 +2,11 @@ import os, sys
 sys.path.insert(0, os.path.dirname(__file__))
 from _common import *
 ERR = 'acmed/src/acme_proto/structs/error.rs'
+MAXS = 14
+HTTP_UW = {r'http::post': 11, 'check_post_conversation': MAXS + 1, 'is_nonce|all::<|Bytes': 3, 'memcmp': 3, 'simd_bitmask': 17}
 SPEC = {
     'id': 'C08',
-    'outside': 'redirects (reqwest), JSON parsing of the problem body (serde_json), non-ASCII type strings, type strings longer than 48 bytes',
+    'outside': 'the retry loop of http::post itself (CBMC 6.11 aborts with an internal error "l2_rename_rvalues case struct not handled" on the generic data-builder call; harness kept in harness/http.rs, unregistered), polling loops of acme_proto/http.rs, redirects (reqwest), JSON parsing of the problem body (serde_json), non-ASCII type strings, type strings longer than 48 bytes',
     'assumptions': [],
     'units': [
         {
@@ -15,6 +17,13 @@ SPEC = {
                 {'name': 'c08_recoverable_iff_listed', 'file': ERR, 'timeout': 1800, 'bounds': 'every ASCII string of 0..48 bytes as problem type; unwind 50',
                  'asserts': 'HttpApiError::get_acme_type().is_recoverable() <=> type is one of the 7 URNs'},
                 {'name': 'c08_absent_type_not_recoverable', 'file': ERR, 'timeout': 900, 'bounds': 'type absent, status any', 'asserts': 'not recoverable'},
+            ],
+        },
+        {
+            'name': 'post', 'shims': ['reqwest'], 'edits': HTTP_EDITS, 'assumptions': HTTP_ASSUMPTIONS,
+            'harness_files': {HTTPF: 'harness/http.rs'},
+            'harnesses': [
+                {'name': 'c09_get_limited_and_nonce_kept', 'file': HTTPF, 'timeout': 1800, 'unwindset': HTTP_UW, 'bounds': 'one get() call, answer chosen by the solver', 'asserts': 'one limiter pass before the send; nonce kept iff valid; malformed nonce and non-2xx rejected'},
             ],
         },
     ],
